@@ -252,6 +252,9 @@ func (c *ctx) check(ns, mode string, element string, prog c08.Prog, class string
 		}
 	}
 	added := len(outEls) - len(handlerEls)
+	if len(res.Invs) > 0 && prog.Ret != "ok" && cls == "clean" && mode != "u" {
+		fail("ends-with-handler-error", "nil-after-"+prog.Ret, fmt.Sprintf("the handler returned %s but Serve returned nil", prog.Ret))
+	}
 	if cls != "clean" {
 		// the stream was terminated with an error: the property makes no demand on replies,
 		// except that nothing is ever added for non-requests
@@ -343,6 +346,13 @@ func (c *ctx) session(ns string, elements []string, progs []c08.Prog, class stri
 	cls := c08.ErrClass(res.Err)
 	r.Line(line, wobs+" "+cls)
 	r.Case(line, true, fmt.Sprintf("%s/session/%d/%s", class, len(elements), cls))
+	// Serve returns nil only because the peer closed the stream, never because of what a
+	// handler returned
+	for k := range res.Invs {
+		if k < len(progs) && progs[k].Ret != "ok" && cls == "clean" {
+			r.Fail("ends-with-handler-error", "nil-after-"+progs[k].Ret, lines, fmt.Sprintf("invocation %d returned %s but Serve returned nil", k, progs[k].Ret))
+		}
+	}
 	if cls != "clean" {
 		return
 	}
@@ -794,7 +804,7 @@ func Run(r *common.Run) error {
 	for _, ns := range []string{c08.NSClient, c08.NSServer} {
 		for _, typ := range []string{"get", "set", "result", "error"} {
 			e := element("iq", "", "er", typ, "a@example.org/r", "-", "", payloads[0])
-			for _, ret := range []string{"ok", "fail", "eof", "stanzaerr", "streamerr"} {
+			for _, ret := range []string{"ok", "fail", "eof", "stanzaerr", "streamerr", "wrapeof", "wrapueof", "wrapstanza", "wrapstream", "joineof"} {
 				for _, ws := range [][]string{nil, {"result"}, {"error"}, {"result", "result"}, {"otherid"}, {"message", "result"}} {
 					for _, m := range []string{"d", "r"} {
 						c.check(ns, m, e, progOf(ws, "er", len(ws)%3, ret), "exhaustive-returns")
@@ -850,6 +860,9 @@ func Run(r *common.Run) error {
 					target = ids[rndS.Intn(cnt)]
 				}
 				p.Ops = append(p.Ops, c08.Op{Write: writes(target)[writeNames[rndS.Intn(len(writeNames))]]})
+			}
+			if rndS.Chance(1, 12) {
+				p.Ret = []string{"fail", "eof", "stanzaerr", "streamerr", "wrapeof", "wrapueof", "wrapstanza", "wrapstream", "joineof"}[rndS.Intn(9)]
 			}
 			progs = append(progs, p)
 		}
@@ -914,7 +927,7 @@ func Run(r *common.Run) error {
 		}
 		ret := "ok"
 		if rnd.Chance(1, 12) {
-			ret = []string{"fail", "eof", "stanzaerr", "streamerr"}[rnd.Intn(4)]
+			ret = []string{"fail", "eof", "stanzaerr", "streamerr", "wrapeof", "wrapueof", "wrapstanza", "wrapstream", "joineof"}[rnd.Intn(9)]
 		}
 		wid := id
 		if wid == "-" {
